@@ -43,6 +43,10 @@ fixed = [
       what='fixed: property=C14 e7c517e ITEM_CACHE_SIZE=0: DequeCache.__setitem__ evicted from an empty deque, every lexical construction raised IndexError'),
  dict(property='C13', status='fixed', commit='f7615b2', key='C13.R2/DefaultParser._read_predicated/self.predicates.add',
       what='fixed: property=C13 f7615b2 Parser(predicates=Predicates.EMPTY)(\'Fm\') raised AttributeError (Frozen has no add)'),
+ dict(property='C20', status='fixed', commit='be72045', key='C20.R4/D/finish/access pairs [(0, 1)], frames at worlds [0, 1]',
+      what='fixed: property=C20 be72045 D models: the world SerialAccess.enforce() adds after _complete_frames had no frame -- get_data() omitted it from Worlds (Fm |- b: Worlds [0,1], Access [(0,1),(1,2)]) and listed it once a sentence had been evaluated there'),
+ dict(property='C08', status='fixed', commit='be72045', key='C08.R3/D/finish/access pairs [(0, 1)], frames at worlds [0, 1]',
+      what='fixed: property=C08 be72045 same defect: no self-identity / defaults at the serial world, so []m=m was false at the world that sees it'),
 ]
 def triage(prop, f):
     k = f['key']; d = f.get('detail', {})
